@@ -401,6 +401,10 @@ def expand(item, deadline):
             h2 = hist + (op,)
             bad, step, before, canon, label = execute(cfg, h2, check_from=len(h2) - 1)
             note_swallowed(acc)
+            if bad is not None and step == -1:
+                acc.fail("init:fresh-object-not-in-initial-state", {"configuration": cfg_label(cfg), "mismatch": bad},
+                         {"cfg": cfg, "hist": h2})
+                continue
             if h64((cfg, before)) != parent:
                 raise HarnessError("C17: replaying %r %r does not lead to the state it led to when first explored"
                                    % (cfg, hist))
@@ -543,6 +547,14 @@ def run(tier, seed, deadline):
         a = execute(cfg, probe)
         b = execute(cfg, probe)
         if repr(a) != repr(b):
+            # a freshly constructed object that is not in the initial state (it carries what an earlier object of
+            # its class was commanded) is the library's doing, not the harness': that is a finding, not a harness error
+            stale = [x for x in (a, b) if x[0] is not None and x[1] == -1]
+            if stale:
+                acc.fail("init:fresh-object-not-in-initial-state", {"configuration": cfg_label(cfg), "mismatch": stale[0][0],
+                                                                     "note": "second object of the class, built after the first was commanded"},
+                         {"cfg": cfg, "hist": probe, "twice": True})
+                return acc
             raise HarnessError("C17 replay of one history diverged (%s): %r vs %r" % (mode, a, b))
     mprobe = (("w", 8, 0), ("adv",), ("w", 1, 1), ("adv",), ("adv",), ("r", 1), ("adv",))
     cfg = ("min", "BinaryOutputCmdObject", "direct", PRIOS_MIN, 2, 2)
@@ -597,6 +609,8 @@ def replay(case):
     cfg = _tuplify(case["cfg"])
     hist = _tuplify(case["hist"])
     try:
+        if case.get("twice"):
+            execute(cfg, hist)      # the first object of the class is commanded, the second must start clean
         bad, step, before, canon, label = execute(cfg, hist)
     except ConstructError as err:
         return False, "%s: the class cannot be instantiated: %s" % (cfg_label(cfg), err)
